@@ -347,7 +347,36 @@ def nontrivial(c, o):
 def pregen(ctx):
     """tie (T): re-translate readouts/base.py, rls.py, lms.py (coq/gen/Gen_online.v) and intrinsic_plasticity.py (Gen_ip.v) of the tree under test"""
     from vlib import gen
-    return gen.pregen_units(["online", "ip"])
+    errs = [gen.pregen_units(["online", "ip"]), _pregen_trainloop()]
+    return "\n".join(e for e in errs if e) or None
+
+
+def _pregen_trainloop():
+    """tie (T) for the loop AROUND the kernels: re-translate _base.py :: train (the per-timestep online loop) of the tree under test into
+    coq/gen/Gen_trainloop.v (translator vlib/py2coq_loop.py, vocabulary coq/base/LoopPrelude.v); proofs/Gen_trainloop_eq.v then proves it equal to
+    model/Online.v's train loop.  Independent of the kernel units above.  Returns None or the error text; on rejection a stub that does not
+    compile replaces the file (never a stale model)."""
+    import os
+    import traceback
+    path = os.path.join(core.COQ, "gen", "Gen_trainloop.v")
+    os.makedirs(os.path.dirname(path), exist_ok=True)
+    err = None
+    try:
+        from vlib import py2coq_loop
+        text = py2coq_loop.emit(core.REPO)
+    except Exception as ex:
+        if type(ex).__name__ == "Reject":
+            err = "translation rejected: %s" % ex
+        else:
+            err = "translator exception: " + traceback.format_exc()[-1500:]
+    if err is not None:
+        text = "(* GENERATED: translation of the online training loop FAILED -- %s *)\nDefinition translation_failed : True := 0.\n" % (
+            err.replace("*)", "* )").replace("(*", "( *"))
+    old = open(path).read() if os.path.exists(path) else None
+    if old != text:               # keep the mtime (and the compiled cone) when nothing changed
+        with open(path, "w") as f:
+            f.write(text)
+    return None if err is None else "unit trainloop (_base.train, Node.train): %s" % err
 
 
 def correspondence(ctx):
